@@ -53,7 +53,7 @@ prop('C04', ['T5', 'N1', 'N2', 'N3', 'F8', 'M4', 'K4'],
      'node_entries (M4); the backwards walkers reverse their result (K4).',
      ['accessor(tree) is the leaf', 'prefix-freeness of paths', 'codify/eval agreement'])
 
-prop('C05', ['F1', 'F2', 'F3', 'F4', 'W2', 'K3', 'M7', 'P1', 'P4'],
+prop('C05', ['F1', 'F2', 'F3', 'F4', 'W2', 'K3', 'M7', 'P1', 'P4', 'M2', 'M3'],
      'tree_map family, structural part: options forwarded unchanged (F1); the six map functions, '
      'three transpose-map and three broadcast-map functions are one normal form modulo the '
      'declared variation points, with the extra iterable first (F2); every rest is matched by an '
@@ -62,7 +62,9 @@ prop('C05', ['F1', 'F2', 'F3', 'F4', 'W2', 'K3', 'M7', 'P1', 'P4'],
      'and func is used nowhere else (F4); traverse/walk call f_leaf in the leaf arm in traversal '
      'order and f_node once per node after its children were popped (W2); flatten_up_to uses the '
      'same kind arms and key pipeline as flatten (K3, M7) and pairs dict children of a rest with '
-     'the treespec\'s own keys (P1); the broadcast variants pair dict children by key (P4).',
+     'the treespec\'s own keys (P1); the broadcast variants pair dict children by key (P4); the result is '
+     'rebuilt by MakeNode through the inverse of what flatten stored, in the original key order '
+     '(M2, M3).',
      ['argument identity', 'functor laws'])
 
 prop('C06', ['H1', 'H4', 'H2', 'H3'],
@@ -94,21 +96,22 @@ prop('C08', ['I3', 'M5', 'M5b', 'M6', 'F9', 'T6', 'K1', 'K3', 'M7', 'M1'],
      'constructor enumerates children, keys and metadata exactly like flatten (K3, M7, M1).',
      ['count identities', 'transform/compose algebra', 'repr text'])
 
-prop('C09', ['M4', 'M5b', 'P1', 'P4', 'K4', 'F1', 'F2'],
+prop('C09', ['M4', 'M5b', 'P1', 'P4', 'K4', 'F1', 'F2', 'M2'],
      'Broadcasting, structural part: the merge walker copies every payload field of a node (M4); '
      'the result namespace comes from both operands (M5b); '
      'its kind x kind compatibility equals the prefix matchers\' (P1) and dict children are paired '
      'by key (P4); it walks backwards with '
      'descending loops and one final reverse (K4); the Python layer forwards options and uses the '
-     'map normal form (F1, F2).',
+     'map normal form (F1, F2); broadcast trees are rebuilt by MakeNode (M2).',
      ['least upper bound', 'symmetry', 'idempotence'])
 
-prop('C10', ['F6', 'F2', 'F1'],
+prop('C10', ['F6', 'F2', 'F1', 'P1', 'M2', 'M3'],
      'Transposition, structural part: the four documented rejections dominate the regrouping; '
      'chunk width = stride = inner_size over m*n leaves; zip(*) swaps the dimensions and '
      'outer.unflatten / inner.unflatten consume the right side (F6); the with_path / with_accessor '
      'variants differ only by the extra first iterable (F2); the namespace guard reads both '
-     'treespecs (F6 namespace-of-both); options forwarded (F1).',
+     'treespecs (F6 namespace-of-both); options forwarded (F1); the two engine operations it is '
+     'built from - flatten_up_to matching (P1) and unflatten (M2, M3) - keep their contracts.',
      ['involution law', 'value placement for all shapes'])
 
 prop('C11', ['S1', 'S2', 'S3', 'K2'],
